@@ -77,6 +77,8 @@ type revDoc struct {
 	layout   []string
 	shadowed int // superseded versions left inside an object stream that still holds a current object
 	stale    map[int]bool
+	xnow     map[int]string // merged cross-reference table in the wire form of op c03.objstm
+	traps    []int          // numbers whose last entry leads nowhere (bad index, wrong member, no object stream)
 }
 
 var revEncs = []string{"WinAnsiEncoding", "MacRomanEncoding", "StandardEncoding", "PDFDocEncoding"}
@@ -106,7 +108,7 @@ func (d *revDoc) content(page, rev int) string {
 
 // genRevisions writes the file and returns it with the logical document.
 func genRevisions(r *hx.Rng, tag string) ([]byte, *revDoc) {
-	d := &revDoc{tag: tag, stale: map[int]bool{}}
+	d := &revDoc{tag: tag, stale: map[int]bool{}, xnow: map[int]string{}}
 	p := writers.NewPDF(hx.Pick(r, []string{"\n", "\n", "\r\n"}))
 	alloc := func() int { d.next++; return d.next }
 	d.catalog, d.root = alloc(), alloc()
@@ -138,6 +140,8 @@ func genRevisions(r *hx.Rng, tag string) ([]byte, *revDoc) {
 	xrefNum := 0
 	prev := int64(-1)
 	nrev := r.Range(2, 4)
+	stmLen := map[int]int{}
+	var stmList []int
 	for rev := 0; rev < nrev; rev++ {
 		e := map[int]writers.XEntry{}
 		var desc []string
@@ -195,6 +199,7 @@ func genRevisions(r *hx.Rng, tag string) ([]byte, *revDoc) {
 					if o.kind == "int" && !already {
 						o.live = false
 						e[o.num] = writers.XEntry{Type: 0, F1: 0, F2: 1}
+						d.xnow[o.num] = "f"
 						desc = append(desc, fmt.Sprintf("%d:freed", o.num))
 						if o.home != 0 {
 							d.stale[o.home] = true
@@ -228,6 +233,7 @@ func genRevisions(r *hx.Rng, tag string) ([]byte, *revDoc) {
 			} else {
 				o.home = 0
 				e[o.num] = writers.XEntry{Type: 1, F1: p.Obj(o.num, 0, d.body(o))}
+				d.xnow[o.num] = fmt.Sprintf("o%d", o.ver)
 				desc = append(desc, fmt.Sprintf("%d:%s/V%d", o.num, o.kind, o.ver))
 			}
 		}
@@ -238,15 +244,48 @@ func genRevisions(r *hx.Rng, tag string) ([]byte, *revDoc) {
 			}
 			hx.Shuffle(r, ms)
 			var mem []writers.ObjStmMember
-			var md []string
+			var md, hn, hv []string
 			for i, o := range ms {
 				mem = append(mem, writers.ObjStmMember{Num: o.num, Body: d.body(o)})
 				e[o.num] = writers.XEntry{Type: 2, F1: int64(s), F2: i}
+				d.xnow[o.num] = fmt.Sprintf("s%d.%d", s, i)
+				hn = append(hn, strconv.Itoa(o.num))
+				hv = append(hv, strconv.Itoa(o.ver))
 				members[s] = append(members[s], o.num)
 				md = append(md, fmt.Sprintf("%d:%s/V%d", o.num, o.kind, o.ver))
 			}
 			e[s] = writers.XEntry{Type: 1, F1: p.ObjStm(s, mem, r.Bool(), 0)}
+			d.xnow[s] = fmt.Sprintf("m1/%s/%s", strings.Join(hn, "."), strings.Join(hv, "."))
+			stmLen[s] = len(ms)
+			stmList = append(stmList, s)
 			desc = append(desc, fmt.Sprintf("objstm%d{%s}", s, strings.Join(md, " ")))
+		}
+		if rev == nrev-1 && len(stmList) > 0 {
+			// malformed references: numbers whose entry of the last revision names an index past
+			// the header, a member that carries another number, an object that is no stream, or
+			// an object stream nothing has
+			for n := r.Range(0, 2); n > 0; n-- {
+				t := alloc()
+				s := hx.Pick(r, stmList)
+				idx := r.Intn(stmLen[s])
+				switch r.Intn(4) {
+				case 0:
+					idx = stmLen[s] + r.Intn(3)
+				case 1: // the member at idx is another object
+				case 2:
+					for _, o := range d.objs {
+						if o.kind == "int" && o.live && o.home == 0 {
+							s = o.num
+						}
+					}
+				case 3:
+					s = d.next + 40
+				}
+				e[t] = writers.XEntry{Type: 2, F1: int64(s), F2: idx}
+				d.xnow[t] = fmt.Sprintf("s%d.%d", s, idx)
+				d.traps = append(d.traps, t)
+				desc = append(desc, fmt.Sprintf("%d:->objstm%d[%d]", t, s, idx))
+			}
 		}
 		xrefNum = alloc()
 		w := [3]int{1, r.Range(2, 4), 2}
@@ -316,6 +355,7 @@ func runRevisions(c *hx.Ctx, idx int) {
 		}
 	}
 	nums = append(nums, d.next+3) // a number nothing has
+	nums = append(nums, d.traps...)
 	var acc []string
 	var seq []int
 	for n := r.Range(3, 12); n > 0; n-- {
@@ -368,6 +408,19 @@ func runRevisions(c *hx.Ctx, idx int) {
 			return fmt.Sprintf("file %s; accesses %s on one reader gave the versions %v; the document (last revision of every object; - = freed or never written) has %v", k.File, strings.Join(acc, ","), got, want)
 		})
 		c.Op("c03.cache "+joinOrDash(spec, ",")+" "+strings.Join(acc, ","), strings.Join(got, ","))
+		// the three-level model (objCache, objStmCache, ObjectStream) on the physical layout: the
+		// merged cross-reference table with what lies behind every entry, superseded members included
+		var xk []int
+		for n := range d.xnow {
+			xk = append(xk, n)
+		}
+		sort.Ints(xk)
+		var xw []string
+		for _, n := range xk {
+			xw = append(xw, fmt.Sprintf("%d=%s", n, d.xnow[n]))
+		}
+		c.Op("c03.objstm "+strings.Join(xw, ",")+" "+strings.Join(acc, ","), strings.Join(got, ","))
+		c.Count(fmt.Sprintf("objstm-history traps=%d stale-streams=%d", len(d.traps), len(d.stale)))
 	}
 
 	// ---- extraction histories --------------------------------------------------------------
